@@ -35,6 +35,9 @@ var c06Focus = []string{
 	// the random-number functions, projected onto deterministic results
 	`$sum($shuffle(arr)) + n`, `$random() < 2 ? a : n`, `$count($shuffle(objs))`, `$sort($shuffle(arr))`, `$shuffle(arr)^($)`, `$floor($random()) + n`,
 	`$merge([b, {"n": n}])`, `$each(b, function($v, $k){$k & "=" & $v})`, `$type(a) & $type(n)`, `**.c`, `b.*`,
+	// built-ins applied as bare function values (name and context are set on the function for the call)
+	`a ~> $uppercase`, `a ~> $length`, `n ~> $string ~> $length`, `arr ~> $sum`, `a ~> $substringBefore("-") ~> $uppercase`, `"-" ~> $contains`, `a.("z" ~> $substringBefore)`, `a.("-" ~> $split)`,
+	`n.(2 ~> $power)`, `[a ~> $lowercase, a ~> $trim, n ~> $abs]`, `$map(arr, function($v){$v ~> $string}) ~> $join`, `b.("c" ~> $lookup)`,
 	// the registered variable (one Go value shared by all evaluations in configurations A, D, G)
 	`$append($reg.list, n)`, `$append($reg.list, arr)`, `$sort($reg.list)`, `$reg.list^(>$)`, `$reverse($reg.list)`, `$reg ~> |$|{"n": n}|`, `$reg.list[0] + n`, `$zip($reg.list, arr)`,
 	`$distinct($reg.list)`, `$sum($shuffle($reg.list)) + n`, `$merge([$reg, b])`, `$reg.list.($ * n)`, `$map($reg.list, function($v){$v + n})`, `$reduce($reg.list, $append, arr)`, `$append(objs, $reg)`,
